@@ -275,6 +275,48 @@ pub fn run(tier: Tier, seed: u64) -> i32 {
         });
         st.merge(w);
     }
+    // several outputs read by expressions in every order of first occurrence, under every order of the
+    // signal list: the test is accepted and can be iterated against a driver that supplies them all
+    {
+        let outs = ["B", "C", "D"];
+        let orders = ordered_selections(3, 3);
+        let w = par_range("reads of up to 3 outputs in every order of first occurrence x every order of the signal list", (orders.len() * 6) as u64, &deadline, |u, st| {
+            let reads = &orders[(u / 6) as usize];
+            if reads.is_empty() {
+                return;
+            }
+            let perm = [[0, 1, 2], [0, 2, 1], [1, 0, 2], [1, 2, 0], [2, 0, 1], [2, 1, 0]][(u % 6) as usize];
+            let mut sigs = vec![Sig::inp("X", 8, 0)];
+            for &i in &perm {
+                sigs.push(Sig::out(outs[i], 8));
+            }
+            let mut body = vec![];
+            // first occurrences in the order `reads`: one in a let, the others in rows
+            for (k, &i) in reads.iter().enumerate() {
+                if k == 0 {
+                    body.push(Stmt::Let("t".into(), bin(BinOp::Add, name(outs[i]), lit(1))));
+                } else {
+                    body.push(Stmt::Row(vec![Entry::Paren(bin(BinOp::Add, name(outs[i]), name("t"))), Entry::X]));
+                }
+            }
+            body.push(Stmt::Row(vec![Entry::Paren(reads.iter().fold(lit(0), |acc, &i| bin(BinOp::Add, acc, name(outs[i])))), l(1)]));
+            let prog = Program { header: vec!["X".into(), outs[perm[0]].into()], body };
+            let text = text(&prog);
+            st.evals += 1;
+            st.nontrivial += 1;
+            st.witness("outputs_read_in_another_order_than_listed");
+            let answer: Answer = sigs.iter().filter(|s| s.is_out()).map(|s| (s.name.clone(), V::Num(2))).collect();
+            let script = vec![Step::Ans(answer)];
+            let mut opts = RunOpts::new(12);
+            opts.repeat_last = true;
+            let obs = run_dynamic(&text, &sigs, true, &script, &opts);
+            if obs.init != ObsInit::Ok || obs.items.iter().any(|i| !matches!(i, ObsItem::Row(_) | ObsItem::End)) {
+                let b = crate::compare::obs_items_brief(&obs).join(" / ");
+                st.violation("accepted test cannot be iterated", (21 << 40) + u, format!("signals: [{}]\nprogram:\n{text}the driver supplies every output; iterating gives {}", sigs.iter().map(|s| s.show()).collect::<Vec<_>>().join(", "), b.chars().take(300).collect::<String>()), || dyn_replay(&text, &sigs, true, &script, &opts, vec!["rows until the end, no error item".into()], &obs, "not iterable"));
+            }
+        });
+        st.merge(w);
+    }
     // names with multi-byte characters at every offset from the end (with and without the _out suffix),
     // as input, output and bidirectional signal, named in the header directly or as <name>_out
     {
@@ -333,7 +375,7 @@ pub fn run(tier: Tier, seed: u64) -> i32 {
             "independent judgement refsem::bind_judgement (four clauses of the property with the static scoping rule of DESIGN section 3.3)".into(),
             "programs contain nothing that can fail at run time for reasons other than binding (no arithmetic faults, no variable assigned only in an unexecuted while body)".into(),
         ],
-        required_witnesses: vec!["accepted_and_iterated", "rejected_duplicate_signal", "rejected_signal_is_virtual", "rejected_unknown_header_column", "rejected_clock_column_not_an_input", "rejected_read_of_non_output", "wide_test", "non_ascii_signal_name"],
+        required_witnesses: vec!["accepted_and_iterated", "rejected_duplicate_signal", "rejected_signal_is_virtual", "rejected_unknown_header_column", "rejected_clock_column_not_an_input", "rejected_read_of_non_output", "wide_test", "non_ascii_signal_name", "outputs_read_in_another_order_than_listed"],
         exhaustive_note: "all signal lists x headers x menu programs within the bounds".into(),
         e1: false,
     };
